@@ -109,4 +109,4 @@ _SINGLETONS = {None, Ellipsis, NotImplemented}
 
 
 def is_singleton(obj: object) -> bool:
-    return obj in _SINGLETONS or isinstance(obj, (bool, Enum))
+    return any(obj is singleton for singleton in _SINGLETONS) or isinstance(obj, (bool, Enum))
